@@ -135,7 +135,7 @@ impl VHDLServer {
     /// Called when the client requests a completion.
     /// This function looks in the source code to find suitable options and then returns them
     pub fn request_completion(&mut self, params: &CompletionParams) -> Option<CompletionResponse> {
-        let binding = uri_to_file_name(&params.text_document_position.text_document.uri);
+        let binding = uri_to_file_name(&params.text_document_position.text_document.uri)?;
         let file = binding.as_path();
         // 1) get source position, and source file
         let Some(source) = self.project.get_source(file) else {
